@@ -32,6 +32,8 @@ impl FramedIo {
 //@ end
 }
 
+//@@ consts src/backend.rs
+//@@ consts src/router.rs
 //@ item src/backend.rs :: struct Peer
 //@ end
 //@ item src/backend.rs :: struct GenericSocketBackend
@@ -92,6 +94,13 @@ impl GenericSocketBackend {
 //@ receiver-mut
 //@ region "match &self.fair_queue_inner"
 //@|        assumed_queue_insert(&mut self.fair_queue_inner, peer_id.clone(), recv_queue)
+//@ region-text
+//@|        match &self.fair_queue_inner {
+//@|            None => {}
+//@|            Some(inner) => {
+//@|                inner.lock().insert(peer_id.clone(), recv_queue);
+//@|            }
+//@|        }
 //@ spec
 //@|        ensures
 //@|            final(self).peers@ == old(self).peers@.insert(*peer_id, Peer { send_queue: io.write_half }),
@@ -105,6 +114,13 @@ impl GenericSocketBackend {
 //@ receiver-mut
 //@ region "match &self.fair_queue_inner"
 //@|        assumed_queue_remove(&mut self.fair_queue_inner, peer_id)
+//@ region-text
+//@|        match &self.fair_queue_inner {
+//@|            None => {}
+//@|            Some(inner) => {
+//@|                inner.lock().remove(peer_id);
+//@|            }
+//@|        }
 //@ spec
 //@|        ensures
 //@|            final(self).peers@ == old(self).peers@.remove(*peer_id),
@@ -148,7 +164,7 @@ spec fn rr_sent_to(b0: GenericSocketBackend, b1: GenericSocketBackend, r: ZmqRes
     &&& t0.contains_key(p)
     // success: the whole message was written AND flushed to p (send = feed + flush), to p only, and p goes to the back
     &&& r is Ok ==> r->Ok_0 == p && same_except(t0, t1, p)
-            && t1[p].send_queue.sent@ =~= t0[p].send_queue.sent@.push(message)
+            && flushed_one(t0[p].send_queue, t1[p].send_queue, message)
             && b1.round_robin@ =~= rr0.subrange(k + 1, rr0.len() as int).push(p)
     // failure: nothing was flushed; that peer is forgotten and leaves the rotation
     &&& r is Err ==> t1 =~= t0.remove(p) && b1.round_robin@ =~= rr0.subrange(k + 1, rr0.len() as int)
@@ -242,8 +258,7 @@ spec fn router_sent(s0: RouterSocket, s1: RouterSocket, r: ZmqResult<()>, frames
             &&& !t0.contains_key(p) ==> r is Err && t1 == t0
             // otherwise the message minus its first frame goes to exactly that peer
             &&& t0.contains_key(p) ==> same_except(t0, t1, p)
-                    && (r is Ok ==> t1[p].send_queue.sent@.len() == t0[p].send_queue.sent@.len() + 1
-                            && t1[p].send_queue.sent@.subrange(0, t0[p].send_queue.sent@.len() as int) =~= t0[p].send_queue.sent@
+                    && (r is Ok ==> flushed_one(t0[p].send_queue, t1[p].send_queue, t1[p].send_queue.sent@.last())
                             && t1[p].send_queue.sent@.last() is Message
                             && t1[p].send_queue.sent@.last()->Message_0.fr() =~= frames.subrange(1, frames.len() as int))
                     && (r is Err ==> t1[p].send_queue.sent@ == t0[p].send_queue.sent@)
@@ -329,7 +344,7 @@ spec fn rr_socket_sent(b0: GenericSocketBackend, b1: GenericSocketBackend, r: Zm
             let p = b0.round_robin@[k];
             &&& b0.peers@.contains_key(p)
             &&& r is Ok ==> same_except(b0.peers@, b1.peers@, p)
-                    && b1.peers@[p].send_queue.sent@ =~= b0.peers@[p].send_queue.sent@.push(Message::Message(m))
+                    && flushed_one(b0.peers@[p].send_queue, b1.peers@[p].send_queue, Message::Message(m))
                     && b1.round_robin@ =~= b0.round_robin@.subrange(k + 1, b0.round_robin@.len() as int).push(p)
             &&& r is Err ==> b1.peers@ =~= b0.peers@.remove(p)
         }
